@@ -168,3 +168,196 @@ example : transposeSpelling "E" (some 2) 4 "m" 2 true = some ("F", some 2, 4) :=
 example : transposeIdx 0 0 4 2 2 false = some (6, -1, 3) := by decide
 
 end C16
+
+/-! ## String level (round 5): the function the driver runs, hypotheses discharged from the tables -/
+
+namespace C16
+open Model Gen
+
+def steps7 : List String := ["C", "D", "E", "F", "G", "A", "B"]
+
+/-- the interval classes as (quality, number) pairs, written the way globals.py builds INTERVALCLASSES -/
+def classPairs : List (String × Nat) :=
+  ([2, 3, 6, 7].flatMap fun n => ["dd", "d", "m", "M", "A", "AA"].map fun q => (q, n)) ++
+  ([1, 4, 5].flatMap fun n => ["dd", "d", "P", "A", "AA"].map fun q => (q, n))
+
+/-- … and they are exactly the regenerated table: a valid simple `Interval` is one of these pairs -/
+theorem class_pairs_are_the_classes :
+    classPairs.map (fun e => e.1 ++ showNat e.2) = INTERVALCLASSES := by decide +kernel
+
+/-- position on the staff of a spelled note -/
+def staffPos (step : String) (octave : Int) : Option Int :=
+  (lookup (upper step) STEPS_TO_INT).map fun i => 7 * octave + (i : Int)
+
+def stepOK (s : String) : Bool :=
+  match lookup (upper s) STEPS_TO_INT with
+  | some i => decide (i < 7) && decide (lookup i INT_TO_STEPS = some s)
+  | none => false
+
+theorem step_facts : ∀ s ∈ steps7, stepOK s = true := by decide +kernel
+
+def idxOK (j : Nat) : Bool :=
+  match lookup j INT_TO_STEPS with
+  | some s => decide (s ∈ steps7) && decide (lookup (upper s) STEPS_TO_INT = some j)
+  | none => false
+
+theorem idx_facts : ∀ j ∈ List.range 7, idxOK j = true := by decide +kernel
+
+def classOK (e : String × Nat) : Bool :=
+  match lookup (e.1 ++ showNat e.2) INTERVAL_TO_SEMITONES with
+  | some sz => decide (1 ≤ e.2) && decide (e.2 ≤ 7) &&
+      decide (e.1 ++ showNat e.2 = "P1" → sz = 0 ∧ e.2 = 1)
+  | none => false
+
+theorem class_facts : ∀ e ∈ classPairs, classOK e = true := by decide +kernel
+
+end C16
+
+namespace C16
+open Model Gen
+
+private theorem step_unpack {s : String} (hs : s ∈ steps7) :
+    ∃ i, i < 7 ∧ lookup (upper s) STEPS_TO_INT = some i ∧ lookup i INT_TO_STEPS = some s := by
+  have h := step_facts s hs
+  unfold stepOK at h
+  split at h
+  · rename_i i hi
+    simp only [Bool.and_eq_true, decide_eq_true_eq] at h
+    exact ⟨i, h.1, hi, h.2⟩
+  · cases h
+
+private theorem idx_unpack {j : Nat} (hj : j < 7) :
+    ∃ s, s ∈ steps7 ∧ lookup j INT_TO_STEPS = some s ∧ lookup (upper s) STEPS_TO_INT = some j := by
+  have h := idx_facts j (List.mem_range.mpr hj)
+  unfold idxOK at h
+  split at h
+  · rename_i s hs
+    simp only [Bool.and_eq_true, decide_eq_true_eq] at h
+    exact ⟨s, h.1, hs, h.2⟩
+  · cases h
+
+private theorem class_unpack {e : String × Nat} (he : e ∈ classPairs) :
+    ∃ sz, lookup (e.1 ++ showNat e.2) INTERVAL_TO_SEMITONES = some sz ∧ 1 ≤ e.2 ∧ e.2 ≤ 7 ∧
+      (e.1 ++ showNat e.2 = "P1" → sz = 0 ∧ e.2 = 1) := by
+  have h := class_facts e he
+  unfold classOK at h
+  split at h
+  · rename_i sz hz
+    simp only [Bool.and_eq_true, decide_eq_true_eq] at h
+    exact ⟨sz, hz, h.1.1, h.1.2, h.2⟩
+  · cases h
+
+private theorem midi_bridge {i : Nat} {s : String} (hl : lookup i INT_TO_STEPS = some s) (al : Option Int) (o : Int) :
+    spellingToMidi s al o = midiIdx i (al.getD 0) o := by
+  simp [spellingToMidi, midiIdx, basePcIdx, hl]
+
+private theorem staff_bridge {i : Nat} {s : String} (hl : lookup (upper s) STEPS_TO_INT = some i) (o : Int) :
+    staffPos s o = some (diatonicIdx i o) := by
+  simp [staffPos, diatonicIdx, hl]
+
+private theorem stepIdx_lt (i n : Nat) (up : Bool) : transposeStepIdx i n up < 7 := by
+  unfold transposeStepIdx
+  split <;> omega
+
+end C16
+
+namespace C16
+open Model Gen
+
+private theorem transposeIdx_lt {i : Nat} {a o : Int} {n : Nat} {s : Int} {up : Bool} {j : Nat} {a' o' : Int}
+    (h : transposeIdx i a o n s up = some (j, a', o')) : j < 7 := by
+  unfold transposeIdx at h
+  simp only at h
+  cases hb : basePcIdx i <;> cases hc : basePcIdx (transposeStepIdx i n up) <;> simp only [hb, hc] at h <;>
+    try cases h
+  split at h <;>
+    (simp only [Option.some.injEq, Prod.mk.injEq] at h; rw [← h.1]; exact stepIdx_lt _ _ _)
+
+/-- **one note, end to end** (string level, the function the driver runs): for every step name, every alteration
+    (also `None`), every octave, every one of the 39 interval classes and both directions
+    `_transpose_note_inplace` does not raise, the new step is a step name, the MIDI pitch moves by the interval's
+    semitones and the staff position by number − 1 steps in the direction.  No side condition is left: the
+    hypotheses of `semitones_moved` / `steps_moved` (index < 7, 1 ≤ number ≤ 7) are discharged from the tables. -/
+theorem note_moved (s : String) (hs : s ∈ steps7) (e : String × Nat) (he : e ∈ classPairs)
+    (al : Option Int) (o : Int) (up : Bool) :
+    ∃ s' al' o' sz, transposeSpelling s al o e.1 e.2 up = some (s', al', o') ∧ s' ∈ steps7 ∧
+      intervalSemitones e.1 e.2 = some sz ∧
+      (∃ m, spellingToMidi s al o = some m ∧
+        spellingToMidi s' al' o' = some (if up then m + sz else m - sz)) ∧
+      (∃ d, staffPos s o = some d ∧
+        staffPos s' o' = some (if up then d + ((e.2 : Int) - 1) else d - ((e.2 : Int) - 1))) := by
+  obtain ⟨i, hi, h1, h2⟩ := step_unpack hs
+  obtain ⟨sz, hz, hn1, hn7, hp⟩ := class_unpack he
+  have hm := midi_bridge h2 al o
+  have hd := staff_bridge h1 o
+  obtain ⟨hT, hM⟩ := transpose_total i hi (al.getD 0) o e.2 hn1 sz up
+  obtain ⟨m, hm0⟩ := Option.isSome_iff_exists.mp hM
+  by_cases hP : e.1 ++ showNat e.2 = "P1"
+  · obtain ⟨hz0, hn⟩ := hp hP
+    refine ⟨s, al, o, sz, ?_, hs, hz, ⟨m, by rw [hm, hm0], ?_⟩, ⟨_, hd, ?_⟩⟩
+    · simp [transposeSpelling, hP]
+    · rw [hm, hm0, hz0]; cases up <;> simp
+    · rw [hd, hn]; cases up <;> simp
+  · obtain ⟨⟨j, a', o'⟩, ht⟩ := Option.isSome_iff_exists.mp hT
+    have hj : j < 7 := transposeIdx_lt ht
+    obtain ⟨s', hs', hl', hu'⟩ := idx_unpack hj
+    refine ⟨s', some a', o', sz, ?_, hs', hz, ⟨m, by rw [hm, hm0], ?_⟩, ⟨_, hd, ?_⟩⟩
+    · simp [transposeSpelling, hP, h1, hz, ht, hl']
+    · rw [midi_bridge hl' (some a') o', Option.getD_some, semitones_moved i hi _ o e.2 hn1 sz up j a' o' ht, hm0]
+      cases up <;> simp
+    · rw [staff_bridge hu' o', steps_moved i hi _ o e.2 hn1 hn7 sz up j a' o' ht]
+
+/-- **up and then down restores the spelling** (string level): step and octave come back exactly, the alteration
+    as a number (`None` counts as 0: after a transposition other than P1 the alteration is always an int) -/
+theorem note_up_down (s : String) (hs : s ∈ steps7) (e : String × Nat) (he : e ∈ classPairs)
+    (al : Option Int) (o : Int) (up : Bool) :
+    ∃ s' al' o' al'', transposeSpelling s al o e.1 e.2 up = some (s', al', o') ∧
+      transposeSpelling s' al' o' e.1 e.2 (!up) = some (s, al'', o) ∧ al''.getD 0 = al.getD 0 := by
+  obtain ⟨i, hi, h1, h2⟩ := step_unpack hs
+  obtain ⟨sz, hz, hn1, hn7, hp⟩ := class_unpack he
+  by_cases hP : e.1 ++ showNat e.2 = "P1"
+  · exact ⟨s, al, o, al, by simp [transposeSpelling, hP], by simp [transposeSpelling, hP], rfl⟩
+  · obtain ⟨hT, -⟩ := transpose_total i hi (al.getD 0) o e.2 hn1 sz up
+    obtain ⟨⟨j, a', o'⟩, ht⟩ := Option.isSome_iff_exists.mp hT
+    have hj : j < 7 := transposeIdx_lt ht
+    obtain ⟨s', hs', hl', hu'⟩ := idx_unpack hj
+    have hback : transposeIdx j a' o' e.2 sz (!up) = some (i, al.getD 0, o) := by
+      cases up
+      · exact down_up_id i hi _ o e.2 hn1 sz j a' o' ht
+      · exact up_down_id i hi _ o e.2 hn1 sz j a' o' ht
+    refine ⟨s', some a', o', some (al.getD 0), ?_, ?_, rfl⟩
+    · simp [transposeSpelling, hP, h1, hz, ht, hl']
+    · simp [transposeSpelling, hP, hu', hz, hback, h2]
+
+example : transposeSpelling "G" (some 1) 4 "M" 2 true = some ("A", some 1, 4) ∧
+    transposeSpelling "A" (some (-1)) 4 "M" 2 true = some ("B", some (-1), 4) ∧
+    transposeSpelling "B" none 3 "m" 3 false = some ("G", some 1, 3) := by decide
+
+end C16
+
+namespace C16
+open Model Gen
+
+/-- **staff steps for ANY number ≥ 1** (compound intervals included): the step arithmetic of `_transpose_step` /
+    the octave bookkeeping of `_transpose_note_inplace` moves the staff position by (number − 1) mod 7 — the whole
+    octaves of a compound interval are not applied ("TODO work for arbitrary octave" in the source), which is
+    consistent with `Interval.semitones` having no size for numbers above 7 (the call then raises, see
+    `transposeSpelling`); for numbers 1..7 this is `steps_moved` -/
+theorem steps_moved_any (i : Nat) (hi : i < 7) (a o : Int) (n : Nat) (hn : 1 ≤ n) (s : Int) (up : Bool)
+    (j : Nat) (a' o' : Int) (h : transposeIdx i a o n s up = some (j, a', o')) :
+    diatonicIdx j o' =
+      (if up then diatonicIdx i o + ((n : Int) - 1) % 7 else diatonicIdx i o - ((n : Int) - 1) % 7) := by
+  unfold transposeIdx transposeStepIdx at h
+  cases up
+  · obtain ⟨bi, bj, h1, h2, _⟩ := down_facts i n hi hn
+    simp only [h1, h2, Bool.false_eq_true, if_false, Option.some.injEq, Prod.mk.injEq] at h
+    obtain ⟨rfl, -, rfl⟩ := h
+    simp only [diatonicIdx, Bool.false_eq_true, if_false]
+    split <;> omega
+  · obtain ⟨bi, bj, h1, h2, _⟩ := up_facts i n hi hn
+    simp only [h1, h2, if_true, Option.some.injEq, Prod.mk.injEq] at h
+    obtain ⟨rfl, -, rfl⟩ := h
+    simp only [diatonicIdx, if_true]
+    split <;> omega
+
+end C16
